@@ -109,8 +109,7 @@ func init() {
 			"compared: todo errors before an override, the value seen by dependants not yet constructed at the time of the override, function-call counters (laziness: zero right after construction), reached cache state",
 		Assumptions: []string{"observations of entities constructed before an override of one of their dependencies are unspecified by the statement and masked (the rest of such a history is not compared)"},
 		BudgetQuick: 280 * time.Second, BudgetThorough: 1500 * time.Second,
-		Prepare:     PrepareUniverse,
-		CaseTimeout: 900 * time.Second,
+		Prepare: PrepareUniverse,
 		Run: func(w *W) {
 			for mask := 0; mask < 16; mask++ {
 				mask := mask
